@@ -353,6 +353,7 @@ def sole_winner_ranked(ctx, stream, count, rng, beatpath=False):
             n += 1
             r1 = common.call_impl(lambda: ranked_evaluator(rule).evaluate(py_ranked(p2), 1), 10)
             case = dict(kind='sole-added', rule=rule, profile=prof, new_ballot=nb, winner=w)
+            ctx.evaluations += 1          # every moved / added variant is an implementation run of its own
             ctx.nontrivial.add(common.case_hash(case))
             got = sole_winner(r1[1]) if r1[0] == 'ok' else None
             if got != w:
@@ -367,6 +368,7 @@ def sole_winner_ranked(ctx, stream, count, rng, beatpath=False):
                 n += 1
                 r1 = common.call_impl(lambda: ranked_evaluator(rule).evaluate(py_ranked(p2), 1), 10)
                 case = dict(kind='sole-ranked', rule=rule, profile=prof, ballot=bi, new_ballot=b2, winner=w)
+                ctx.evaluations += 1          # every moved / added variant is an implementation run of its own
                 ctx.nontrivial.add(common.case_hash(case))
                 got = sole_winner(r1[1]) if r1[0] == 'ok' else None
                 if got != w:
@@ -436,6 +438,7 @@ def sole_winner_cardinal(ctx, stream, count, rng):
                 n += 1
                 r1 = common.call_impl(lambda: ev.evaluate(py(p2), 1), 10)
                 case = dict(kind='sole-' + kind, profile=prof, ballot=bi, new_ballot=b2, winner=w)
+                ctx.evaluations += 1          # every moved / added variant is an implementation run of its own
                 ctx.nontrivial.add(common.case_hash(case))
                 got = sole_winner(r1[1]) if r1[0] == 'ok' else None
                 if got != w:
@@ -663,6 +666,7 @@ def sole_winner_shared(ctx, stream, count, rng):
             for b2 in shared_moves(b, w, rng):
                 n += 1
                 case = dict(kind='sole-shared', rule=rule, profile=prof, ballot=bi, old_ballot=b, new_ballot=b2, winner=w)
+                ctx.evaluations += 1          # every moved / added variant is an implementation run of its own
                 ctx.nontrivial.add(common.case_hash(case))
                 ctx.dist['shared-move:%d-shared-ranks' % min(2, max(n_shared(b), n_shared(b2)))] += 1
                 if shared_case_check(ctx, stream, case):
